@@ -32,6 +32,7 @@ type admCase struct {
 	Epub     epubCfg `json:"epub"`
 	Tgt      string  `json:"tgt"`
 	Then     string  `json:"then"`
+	Conf     string  `json:"conf"`
 	Expected struct {
 		Detect string `json:"detect"`
 		Open   string `json:"open"`
@@ -63,6 +64,18 @@ func c20Bytes(c *admCase) ([]byte, error) {
 		ms = odtMembers()
 	case "epub":
 		ms = epubMembers(c.Epub)
+	}
+	if c.Conf == "strict" {
+		// ISO/IEC 29500 Strict: the purl.oclc.org namespace family in every part and relationship type
+		for i := range ms {
+			for _, r := range [][2]string{
+				{"http://schemas.openxmlformats.org/officeDocument/2006/relationships", "http://purl.oclc.org/ooxml/officeDocument/relationships"},
+				{"http://schemas.openxmlformats.org/spreadsheetml/2006/main", "http://purl.oclc.org/ooxml/spreadsheetml/main"},
+				{"http://schemas.openxmlformats.org/presentationml/2006/main", "http://purl.oclc.org/ooxml/presentationml/main"},
+				{"http://schemas.openxmlformats.org/drawingml/2006/main", "http://purl.oclc.org/ooxml/drawingml/main"}} {
+				ms[i].data = strings.ReplaceAll(ms[i].data, r[0], r[1])
+			}
+		}
 	}
 	// spelling of the main part in the package relationships (_rels/.rels)
 	if c.Tgt == "abs" || c.Tgt == "dot" {
@@ -146,7 +159,7 @@ func c20Case(i int, raw []byte) Result {
 	// detection from content
 	det, derr := format.DetectFromReader(bytes.NewReader(data), int64(len(data)))
 	if derr != nil || fmtName(det) != c.Expected.Detect {
-		return mk("detect", fmt.Sprintf("%s:order=%s:decoy=%s:tgt=%s", c.Kind, c.Order, c.Decoy, c.Tgt),
+		return mk("detect", fmt.Sprintf("%s:order=%s:decoy=%s:tgt=%s:conf=%s", c.Kind, c.Order, c.Decoy, c.Tgt, c.Conf),
 			fmt.Sprintf("DetectFromReader names %s (err %v) for a valid %s document (member order %s, decoy %s, main part named %s)", det, derr, c.Kind, c.Order, c.Decoy, c.Tgt), fmtName(det))
 	}
 	// opening under the chosen name
@@ -221,6 +234,9 @@ func c20Case(i int, raw []byte) Result {
 	switch c.Expected.Open {
 	case "opens":
 		feat := fmt.Sprintf("%s:order=%s:decoy=%s:case=%s:tgt=%s", c.Kind, c.Order, c.Decoy, c.Ecase, c.Tgt)
+		if c.Conf == "strict" {
+			feat += ":strict"
+		}
 		if c.Mode == "drm" {
 			feat = fmt.Sprintf("drm:%s:%v", c.Epub.Algo, c.Epub.Enc)
 		}
